@@ -52,11 +52,14 @@ Init == /\ mon = [e \in E |-> "none"] /\ unfinished = 1 /\ posted = 0 /\ errset 
 
 (* ---- the waiting caller: AddEventAndWait(root event) --------------------------------- *)
 \* AddObserver(finished, root, wait callback)
-C_Observe == /\ wpc = "init" /\ wpc' = "observing" /\ obs' = obs \cup {"wait"}
+\* (variant "observer-late": the caller registers for the end only after the event has been added - a cascade which is
+\* over by then never tells it)
+Late == Variant = "observer-late"
+C_Observe == /\ wpc = (IF Late THEN "added0" ELSE "init") /\ wpc' = (IF Late THEN "added" ELSE "observing") /\ obs' = obs \cup {"wait"}
              /\ UNCHANGED <<mon, unfinished, posted, errset, tq, tqobs, wgdone, handler, pc, cur, rule, failed, kidsleft, snap, fin, ended, report, fault>>
 
 \* AddEvent(root event): handler observer, Activate, AddTask (Push registers the queue observer)
-C_Add == /\ wpc = "observing" /\ wpc' = "added"
+C_Add == /\ wpc = (IF Late THEN "init" ELSE "observing") /\ wpc' = (IF Late THEN "added0" ELSE "added")
          /\ obs' = obs \cup {"handler"}
          /\ mon' = [mon EXCEPT ![1] = "active"]
          /\ tq' = tq \cup {1} /\ tqobs' = TRUE
